@@ -68,7 +68,8 @@ func c19Text(class string, messy bool) (string, bool) {
 func c19Cases(tier string) []c19Case {
 	var out []c19Case
 	actions := [][]string{{}, {"t"}, {"u"}, {"--show"}, {"--vars"}, {"--fmt"}, {"--init"}, {"--force", "t"}, {"--quiet", "t"}, {"--json", "t"}, {"--debug", "t"}, {"t", "u", "--json"}, {"nosuchtask"}, {"--fmt", "--quiet"}, {"--spokfile", "spokfile", "--show"},
-		{"--help"}, {"--version"}, {"-h"}, {"--show", "--vars"}, {"--vars", "t"}, {"--spokfile", "Spokfile", "--fmt"}, {"--spokfile", "Spokfile", "--show"}, {"--spokfile", "other/spokfile", "t"}}
+		{"--help"}, {"--version"}, {"-h"}, {"--show", "--vars"}, {"--vars", "t"}, {"--spokfile", "Spokfile", "--fmt"}, {"--spokfile", "Spokfile", "--show"}, {"--spokfile", "other/spokfile", "t"},
+		{"--init", "--spokfile", "Spokfile"}, {"--spokfile", "Spokfile", "--init"}, {"--init", "--spokfile", "other/spokfile"}, {"--init", "--quiet"}, {"--init", "t"}}
 	for _, cl := range c19Classes {
 		for _, a := range actions {
 			for _, nested := range []bool{false, true} {
@@ -211,7 +212,12 @@ func c19Run(root string, c c19Case) (obs []c19Obs, outcome string) {
 		return []c19Obs{{"process-died", fmt.Sprintf("signal=%s timeout=%v %s", o.Signal, o.TimedOut, firstLines(o.Stderr, 3))}}, "died"
 	}
 	removed, added, changed := bin.Diff(before, after)
-	isInit := len(c.Action) > 0 && c.Action[0] == "--init"
+	isInit := false
+	for _, a := range c.Action {
+		if a == "--init" {
+			isInit = true
+		}
+	}
 	isFmt := len(c.Action) > 0 && c.Action[0] == "--fmt"
 	spokDir := "home/w/proj/.spok"
 	if len(c.Action) >= 2 && c.Action[0] == "--spokfile" && strings.HasPrefix(c.Action[1], "other/") {
